@@ -128,6 +128,54 @@ impl VM {
         self.alloc_object(obj)
     }
 
+    /// Makes room for `additional` more elements in the vec at `vec_ref` under the heap limit.
+    /// The growth `Vec` would perform is computed first (amortised doubling, or the exact need when
+    /// the doubling does not fit the limit), checked with `ensure_heap_capacity`, performed, and
+    /// added to the accounted heap size.  Returns Ok(false) when `vec_ref` is not a vec.
+    pub(crate) fn vec_reserve_checked(
+        &mut self,
+        vec_ref: GcRef,
+        additional: usize,
+    ) -> Result<bool, RuntimeError> {
+        let (len, cap, elem) = match self.heap.get(vec_ref) {
+            Some(obj) => match &obj.kind {
+                ObjectKind::Vec(v) => (v.len(), v.capacity(), v.elem_size() as u64),
+                _ => return Ok(false),
+            },
+            None => return Ok(false),
+        };
+        if cap - len >= additional {
+            return Ok(true);
+        }
+        let too_large = |vm: &VM| {
+            vm.runtime_error(RuntimeErrorKind::OutOfMemory {
+                requested: vm.config.max_heap_bytes.saturating_add(1),
+                max: vm.config.max_heap_bytes,
+            })
+        };
+        let required = len.checked_add(additional).ok_or_else(|| too_large(self))?;
+        let grow_bytes = |new_cap: usize| ((new_cap - cap) as u64).checked_mul(elem);
+        let amortised = required.max(cap.saturating_mul(2)).max(4);
+        let new_cap = match grow_bytes(amortised) {
+            Some(bytes) if self.ensure_heap_capacity(bytes).is_ok() => amortised,
+            _ => {
+                let bytes = grow_bytes(required).ok_or_else(|| too_large(self))?;
+                self.ensure_heap_capacity(bytes)?;
+                required
+            }
+        };
+        let mut grown = 0;
+        if let Some(obj) = self.heap.get_mut(vec_ref)
+            && let ObjectKind::Vec(v) = &mut obj.kind
+        {
+            let before = v.size_bytes();
+            v.reserve_exact(new_cap - len);
+            grown = v.size_bytes().saturating_sub(before);
+        }
+        self.heap.account_growth(grown);
+        Ok(true)
+    }
+
     pub fn manual_alloc(&mut self, size: usize, line: u32) -> Result<usize, RuntimeError> {
         let bytes = (size as u64)
             .checked_mul(std::mem::size_of::<Value>() as u64)
